@@ -45,6 +45,7 @@ int GraphDependency::activate(DataStack& activating_data) noexcept {
   waiting_num =
       _waiting_num.fetch_add(waiting_num, ::std::memory_order_acq_rel) +
       waiting_num;
+  BABYLON_VERIF_POINT("af:dep_activate_added");
   // waiting_num终值域[-1, 0, 1, 2]
   // [-1, 0]均表达激活前已经就绪，其余终值等待后续data可用来出发就绪
   // 包括condition不满足[-2 0|-1]和condition和target都就绪[-1 -1]
@@ -52,10 +53,12 @@ int GraphDependency::activate(DataStack& activating_data) noexcept {
   switch (waiting_num) {
     // 激活时已经就绪，且条件不成立
     case -1: {
+      BABYLON_VERIF_POINT("af:dep_act_term_m1");
       return 1;
     }
     // 激活时已经就绪，且条件可能成立
     case 0: {
+      BABYLON_VERIF_POINT("af:dep_act_term_0");
       if (check_established()) {
         auto acquired_depend = !_mutable ? _target->acquire_immutable_depend()
                                          : _target->acquire_mutable_depend();
@@ -70,6 +73,7 @@ int GraphDependency::activate(DataStack& activating_data) noexcept {
       return 1;
     }
     case 1: {
+      BABYLON_VERIF_POINT("af:dep_act_1");
       // 无condition，激活target
       if (_condition == nullptr) {
         _established = true;
@@ -84,9 +88,11 @@ int GraphDependency::activate(DataStack& activating_data) noexcept {
         _target->trigger(activating_data);
         // condition未就绪，激活condition
       } else if (!_condition->ready()) {
+        BABYLON_VERIF_POINT("af:dep_act_1_cond_unready");
         _condition->trigger(activating_data);
         // condition成立，激活target
       } else if (check_established()) {
+        BABYLON_VERIF_POINT("af:dep_act_1_cond_ready_est");
         auto acquired_depend = !_mutable ? _target->acquire_immutable_depend()
                                          : _target->acquire_mutable_depend();
         if (ABSL_PREDICT_FALSE(!acquired_depend)) {
@@ -105,6 +111,7 @@ int GraphDependency::activate(DataStack& activating_data) noexcept {
     }
     // condition未就绪，激活condition
     case 2: {
+      BABYLON_VERIF_POINT("af:dep_act_2");
       _condition->trigger(activating_data);
       break;
     }
@@ -119,12 +126,14 @@ void GraphDependency::ready(GraphData* data,
                             VertexStack& runnable_vertexes) noexcept {
   int64_t waiting_num =
       _waiting_num.fetch_sub(1, ::std::memory_order_acq_rel) - 1;
+  BABYLON_VERIF_POINT("af:dep_ready_sub");
   // condition完成时检测条件是否成立
   if (data == _condition) {
     // 成立时
     if (check_established()) {
       // 如果waiting num是1，，则激活target
       if (waiting_num == 1) {
+        BABYLON_VERIF_POINT("af:dep_ready_cond_est_activates_target");
         auto acquired_depend = !_mutable ? _target->acquire_immutable_depend()
                                          : _target->acquire_mutable_depend();
         if (ABSL_PREDICT_FALSE(!acquired_depend)) {
@@ -148,6 +157,7 @@ void GraphDependency::ready(GraphData* data,
       // 通过边沿触发和激活时[-1, 0]双终态解决
     } else if (waiting_num != 0) {
       waiting_num = _waiting_num.fetch_sub(1, ::std::memory_order_acq_rel) - 1;
+      BABYLON_VERIF_POINT("af:dep_ready_cond_false_sub2");
     }
   }
   // 无condition的target就绪
@@ -156,6 +166,7 @@ void GraphDependency::ready(GraphData* data,
   // 当condition和target的就绪以及激活操作并发时
   // 就绪的终态[0]和激活的终态[-1, 0]确保不重不漏
   if (waiting_num == 0 && nullptr != _source) {
+    BABYLON_VERIF_POINT("af:dep_ready_term_0");
     if (data == _target) {
       _ready = check_established();
     } else {
